@@ -17,7 +17,7 @@ SHARDS = {"quick": 8, "thorough": 16}
 RULE = ("a settable state (power, mode 1..6, setpoint 13.0..43.5 step 0.5, fan 0..127, swing, eco, turbo, sleep, Fahrenheit, "
         "freeze protection, follow-me, purifier, target humidity 0..127, aux mode, beep) is written through AirConditioner "
         "setters + apply() (or, for a share of the cases, as setting=value arguments of `msmart-ng control`) to a model device whose 0x40 decoder follows the vendor Lua layout (and through SetStateCommand "
-        "directly for all 16 raw swing nibbles), on a fresh client, after get_capabilities() against two capability profiles (one without custom fan speeds), or after a refresh from a unit whose state reports are short (16..21 bytes), with or without property-protocol settings pending in the same apply(), while the object is otherwise idle or while an earlier refresh()/apply() of the same object is still awaiting its answer, through the canonical attributes or the deprecated alias attributes (eco_mode, turbo_mode, sleep_mode, freeze_protection_mode); the decoded body must equal the request field by field, vendor-fixed constants must "
+        "directly for all 16 raw swing nibbles), on a fresh client, after get_capabilities() against two capability profiles (one without custom fan speeds), or after a refresh from a unit whose state reports are short (16..21 bytes) or have every unmodelled bit of bytes 8..10 set, with or without property-protocol settings pending in the same apply(), while the object is otherwise idle or while an earlier refresh()/apply() of the same object is still awaiting its answer, through the canonical attributes or the deprecated alias attributes (eco_mode, turbo_mode, sleep_mode, freeze_protection_mode); the decoded body must equal the request field by field, vendor-fixed constants must "
         "hold (0x40, mobile-client bit, timers off, swing high bits 0x30, undefined bits clear), and no two different states may "
         "share a body. Per-field exhaustive sweeps (62 setpoints x 6 modes, 128 fan bytes, humidity 0..127, flags sharing a "
         "byte in all combinations) over two backgrounds, a greedy pairwise covering array, and Hypothesis random states. "
@@ -81,7 +81,13 @@ def _apply_and_get_body(s: dict, via: str, caps_profile=None, case_propset=0, ca
         dev = SimDevice(loop, version=2, device_id=3, ac=ModelAC())
         net.listen("10.0.0.9", 6444, dev)
         ac = AC(ip="10.0.0.9", port=6444, device_id=3)
-        if caps_profile and caps_profile.startswith("short"):
+        if caps_profile == "noisy":
+            # history: the unit's last report had every bit set that the library does not model (bytes 8, 9, 10 carry more
+            # settings than the library knows); none of them may find its way into a modelled field of the command
+            dev.ac.state_overrides = {8: 0xFF, 9: 0xFF, 10: 0xFF}
+            await ac.refresh()
+            dev.ac.state_overrides = {}
+        elif caps_profile and caps_profile.startswith("short"):
             # history: the unit is an older one whose state reports are short (16..21 bytes: no humidity / freeze-protection
             # bytes) and the client has refreshed from it; what is then requested must still be encoded in full
             dev.ac.state_len = int(caps_profile[5:])
@@ -185,7 +191,7 @@ def _run_one(ctx, case):
     nt = s != BASE
     ctx.case(hash((tuple(sorted(s.items())), case.get("via", "device"), case.get("caps"), case.get("propset", 0), case.get("aliases", False), case.get("inflight"))), nt, cls=case.get("cls", "state") + "/" + case.get("via", "device"))
     if case.get("caps") and case.get("via", "device") == "device":
-        ctx.label(("after a short state report (" if case["caps"].startswith("short") else "after get_capabilities (") + case["caps"] + ")")
+        ctx.label(("after a short state report (" if case["caps"].startswith("short") else "after a report with all unmodelled bits set (" if case["caps"] == "noisy" else "after get_capabilities (") + case["caps"] + ")")
     if case.get("inflight") and case.get("via", "device") == "device":
         ctx.label("apply() while an earlier " + case["inflight"] + "() is in flight")
     ctx.sample(case.get("cls", "state"), case)
@@ -255,7 +261,7 @@ def run(ctx) -> None:
             if "via" not in case and i % 5 == 4:
                 case = dict(case, via="command")
             elif "via" not in case and i % 5 in (1, 3):
-                case = dict(case, caps=["caps0", "caps1", "caps0+refresh", "short18", "short16", "short21", "short20"][(i // 5) % 7])
+                case = dict(case, caps=["caps0", "caps1", "caps0+refresh", "short18", "short16", "short21", "short20", "noisy"][(i // 5) % 8])
             elif "via" not in case and i % 5 == 2:
                 case = dict(case, propset=1 + (i // 5) % 2)
             elif "via" not in case and i % 20 == 0:
@@ -271,5 +277,5 @@ def run(ctx) -> None:
     wide = st.fixed_dictionaries({"state": st.one_of(full, full.flatmap(lambda s: st.integers(0, 127).map(lambda f: dict(s, fan=f))),
                                                      full.flatmap(lambda s: st.integers(0, 127).map(lambda h: dict(s, humidity=h)))),
                                   "via": st.sampled_from(["device", "device", "device", "command", "command", "cli"]), "cls": st.just("random"),
-                                  "caps": st.sampled_from([None, "caps0", "caps1", "caps0+refresh", "short16", "short19", "short21"]), "propset": st.sampled_from([0, 0, 1, 2]), "aliases": st.sampled_from([False, False, True]), "inflight": st.sampled_from([None, None, None, "refresh", "apply"])})
+                                  "caps": st.sampled_from([None, "caps0", "caps1", "caps0+refresh", "short16", "short19", "short21", "noisy", "noisy"]), "propset": st.sampled_from([0, 0, 1, 2]), "aliases": st.sampled_from([False, False, True]), "inflight": st.sampled_from([None, None, None, "refresh", "apply"])})
     ctx.hyp("random", wide, lambda c: _run_one(ctx, c), ctx.n(2500, 320000))
